@@ -338,36 +338,56 @@ def check_ttl_plumbing(rep, fl):
     """R03.4 / R03.5: the TTL given to insert* becomes the stored deadline."""
     facts = fl.facts
     tu = fl.cache_fn("try_update")
-    at, entry = dataflow(tu)
     ttl = V("ttl")
-    exp_l = None
-    defs = []
-    # the deadline variable (or the result slot of a helper that computes it): defined only by Time::now* calls
-    for l in sorted(tu.defs):
-        ds = tu.defs.get(l, [])
-        es = [norm(tu.def_expr(a, b, True)) for a, b in ds]
-        if len(es) == 2 and all(is_call(e, "Time::now") or is_call(e, "Time::now_with_expiration") for e in es):
-            exp_l, defs = l, list(zip(ds, es))
-    ok = exp_l is not None and len(defs) == 2
-    if ok:
-        zero = A(call("std::time::Duration::is_zero", ttl))
-        for (dbi, dsi), e in defs:
-            sts = [expand_state(tu, s) for s in at.get((dbi, dsi), set())]
-            if is_call(e, "Time::now"):
-                ok = ok and all(feval(zero, s) is True for s in sts)
-            else:
-                ok = ok and e[2][0] == ttl and all(feval(zero, s) is False for s in sts)
+
+    def deadline_defs(hb):
+        """the deadline variable of body hb (or the result slot of a helper that computes it): defined only by Time::now*
+        calls, `now()` exactly when ttl is zero"""
+        at_, _e = dataflow(hb)
+        exp_l_, defs_ = None, []
+        for l in sorted(hb.defs):
+            ds = hb.defs.get(l, [])
+            es = [norm(hb.def_expr(a, b, True)) for a, b in ds]
+            if len(es) == 2 and all(is_call(e, "Time::now") or is_call(e, "Time::now_with_expiration") for e in es):
+                exp_l_, defs_ = l, list(zip(ds, es))
+        ok_ = exp_l_ is not None and len(defs_) == 2
+        if ok_:
+            zero = A(call("std::time::Duration::is_zero", ttl))
+            for (dbi, dsi), e in defs_:
+                sts = [expand_state(hb, s) for s in at_.get((dbi, dsi), set())]
+                if is_call(e, "Time::now"):
+                    ok_ = ok_ and all(feval(zero, s) is True for s in sts)
+                else:
+                    ok_ = ok_ and e[2][0] == ttl and all(feval(zero, s) is False for s in sts)
+        return ok_, exp_l_
+    ok, exp_l = deadline_defs(tu)
+    names = None
+    if exp_l is None:
+        # the deadline may be computed by the one caller and handed in as a parameter (`try_update(.., expiration: Time, ..)`)
+        tpar = [i_ for i_ in range(1, tu.arg_count + 1) if tu.locals[i_]["ty"].endswith("ttl::Time")]
+        ti = fl.cache_fn("try_insert_in", required=False)
+        if len(tpar) == 1 and ti is not None:
+            cs_ = calls_to(ti, fl.cache + "::try_update")
+            if len(cs_) == 1:
+                okc, cl = deadline_defs(ti)
+                arg_ = norm(ti.call_args(cs_[0][1], expand_vars=False)[tpar[0] - 1])
+                slot_c = norm(ti.place_expr({"l": cl, "p": []}, False)) if cl is not None else None
+                cnames = {slot_c} | {V(n_) for l_, n_ in ti.local_name.items() if len(ti.defs.get(l_, [])) == 1 and slot_c is not None and norm(ti.def_expr(ti.defs[l_][0][0], ti.defs[l_][0][1], False)) == slot_c}
+                if okc and (arg_ in cnames or (arg_[0] == "tmp" and norm(ti.expand(arg_)) in cnames)):
+                    ok, exp_l = True, tpar[0]
+                    names = {V(tu.local_name.get(tpar[0], "arg%d" % tpar[0]))}
     rep.check(ok, "R03.4", fl, tu, "expiration", "expiration = Time::now() iff ttl.is_zero(), else Time::now_with_expiration(ttl)",
               "the deadline of an insert is no longer derived from its ttl parameter")
     if exp_l is None:
         return
     # the deadline value: that local, or a named variable that is a plain copy of it (`let expiration = helper(ttl)`)
     slot = tu.place_expr({"l": exp_l, "p": []}, False)
-    names = {norm(slot)}
-    for l, name in tu.local_name.items():
-        ds = tu.defs.get(l, [])
-        if len(ds) == 1 and norm(tu.def_expr(ds[0][0], ds[0][1], False)) == norm(slot):
-            names.add(V(name))
+    if names is None:
+        names = {norm(slot)}
+        for l, name in tu.local_name.items():
+            ds = tu.defs.get(l, [])
+            if len(ds) == 1 and norm(tu.def_expr(ds[0][0], ds[0][1], False)) == norm(slot):
+                names.add(V(name))
 
     def is_deadline(e):
         e = norm(e)
@@ -389,7 +409,16 @@ def check_ttl_plumbing(rep, fl):
     # callers: insert / insert_if_present pass ZERO, insert_with_ttl passes its parameter
     ti = fl.cache_fn("try_insert_in")
     c = calls_to(ti, fl.cache + "::try_update")
-    ok = len(c) == 1 and norm(ti.call_args(c[0][1])[4]) == V("ttl") and norm(ti.call_args(c[0][1])[3]) == V("cost")
+    ok = len(c) == 1
+    if ok:
+        # arguments by the callee's parameter names; the deadline itself when try_update takes it instead of the ttl
+        a_ = [norm(x_) for x_ in ti.call_args(c[0][1])]
+        tu0 = facts.body(strip_generics(tu.raw["root"]), required=False) or tu
+        byn = {tu0.local_name.get(i_ + 1): a_[i_] for i_ in range(len(a_)) if tu0.local_name.get(i_ + 1)}
+        ok = byn.get("cost", a_[3] if len(a_) > 3 else None) == V("cost")
+        if "ttl" in byn or len([1 for i_ in range(1, tu0.arg_count + 1) if tu0.locals[i_]["ty"].endswith("ttl::Time")]) == 0:
+            ok = ok and byn.get("ttl", a_[4] if len(a_) > 4 else None) == V("ttl")
+        # (else: the deadline parameter was matched with the caller's computation above)
     rep.check(ok, "R03.4", fl, ti, "try_update(.., ttl, ..)", "try_insert_in forwards ttl and cost", "try_insert_in does not forward its ttl/cost")
     for meth, want_ttl, want_flag in (("try_insert_with_ttl", V("ttl"), 0), ("try_insert_if_present", "ZERO", 1), ("insert_with_ttl", V("ttl"), 0), ("insert_if_present", "ZERO", 1),
                                       ("try_insert", "ZERO", 0), ("insert", "ZERO", 0)):
